@@ -1076,7 +1076,11 @@ def _read_chunk(ctx, src, limit, where, ch, leaf, rgd, extent_list):
             ctx.issue("num_rows", where, "repeated column holds %d rows, RowGroup.num_rows=%d" % (nrows, rgd.num_rows))
     st = md.get("statistics")
     if st:
-        if st.get("null_count") is not None and st["null_count"] != nulls:
+        ok_counts = {nulls}
+        if leaf.max_rep:
+            # repeated columns: writers count either every level entry without a value or null values only
+            ok_counts.add(sum(1 for d in all_defs if d == leaf.max_def - 1) if (leaf.repetitions and leaf.repetitions[-1] == "OPTIONAL") else 0)
+        if st.get("null_count") is not None and st["null_count"] not in ok_counts:
             ctx.issue("null_count", where, "statistics.null_count=%d, actual nulls %d" % (st["null_count"], nulls))
         _check_stats(ctx, where, st, leaf, ch)
     _check_page_indexes(ctx, src, where, ch)
